@@ -126,6 +126,21 @@ def generate():
              "pocketscion maybe_create_scmp_reply: no reply to SCMP errors (is_error || type < N)", sim_rel)
     sim_thr = int(m.group(1)) if m else 0
 
+    # SNAP gateway: no reply to an inbound datagram that is an SCMP error (parseable header)
+    pol_rel = "crates/snap/snap-dataplane/src/tunnel_gateway/packet_policy.rs"
+    gwr_rel = "crates/snap/snap-dataplane/src/tunnel_gateway/gateway.rs"
+    pol, gwr = src(pol_rel), src(gwr_rel)
+    m = need(pol, r"pub\(crate\) fn offending_is_scmp_error\(&self\) -> bool \{\s*match self \{\s*PacketPolicyError::MalformedPacket\(\.\.\) => false,\s*"
+                  r"PacketPolicyError::InvalidPathType\(view, _\)\s*\| PacketPolicyError::InvalidSourceAddress\(view\) => \{\s*"
+                  r"view\.header\(\)\.next_header\(\) == ProtocolNumber::Scmp\s*&& view\.payload\(\)\.first\(\)\.is_some_and\(\|scmp_type\| \*scmp_type < (\d+)\)",
+             "PacketPolicyError::offending_is_scmp_error", pol_rel)
+    gw_thr = int(m.group(1)) if m else 0
+    need(gwr, r"Err\(e\) if e\.offending_is_scmp_error\(\) => \{[^}]*\}\s*Err\(e\) => \{\s*tracing::debug!\(err=%e, \"Inbound datagram check failed\"\);",
+         "gateway: SCMP errors are not answered (guard arm before the reply arm)", gwr_rel, re.S)
+    need(gwr, r"fn create_scmp_error\(\s*err: PacketPolicyError,\s*local_addr: ScionHostAddr,\s*dst_addr: ScionAddr,\s*target_buf: &mut Packet,\s*\) -> Result<usize, EncodeError> \{\s*"
+              r"let scmp_message = create_inbound_scmp_error\(err\);\s*let scmp_packet_model = ScionScmpPacket::new\(\s*ScionAddr::new\(dst_addr\.isd_asn\(\), local_addr\),\s*dst_addr,\s*DpPath::Empty,\s*scmp_message,\s*\);\s*scmp_packet_model\.try_encode\(target_buf\)",
+         "gateway create_scmp_error: empty path, source = (dst ISD-AS, local address)", gwr_rel)
+
     body = f"""From Coq Require Import NArith List.
 Import ListNotations.
 Local Open Scope N_scope.
@@ -138,6 +153,8 @@ Definition scmp_error_kinds : list (N * N) := [{"; ".join(f"({t}, {h})" for t, h
 Definition scmp_is_error_types : list N := [{"; ".join(str(x) for x in is_err)}].
 (* message kinds DefaultEchoHandler::try_echo_reply answers (every other arm: Ok(None)) *)
 Definition echo_answered_types : list N := [{"; ".join(str(x) for x in answered)}].
+(* SNAP gateway offending_is_scmp_error: no reply to a parseable datagram whose SCMP type is below this *)
+Definition GW_ERROR_TYPE_BOUND : N := {gw_thr}.
 (* pocketscion maybe_create_scmp_reply: no reply to a packet whose SCMP type is below this *)
 Definition SIM_ERROR_TYPE_BOUND : N := {sim_thr}.
 Definition T_ECHO_REQUEST : N := {types['EchoRequest']}.
